@@ -1,6 +1,7 @@
 import DuneVerif.Proofs.C06Sched
 import DuneVerif.Proofs.C06System
 import DuneVerif.Proofs.C06Rank
+import DuneVerif.Proofs.C06Fix
 /-!
 # C06 — VariableSizeCommunicator delivers every item intact for any sizes / buffer size, and returns
 
@@ -119,9 +120,25 @@ theorem size_exchange_roundtrip (h : Handle α) (B : Nat) (hB : 0 < B) (sendIdx 
 example : (exchangeSizes true 2 (⟨false, fun i => List.replicate i 0⟩ : Handle Nat) [4, 0, 1, 3, 0] [1, 1, 1, 1, 1]).2.acc
     = [4, 0, 1, 3, 0] := by decide
 
-/-- fixed-size handles: the scalar the receiver's tracker ends up with is the sender's -/
-theorem size_exchange_roundtrip_fixed (q : Nat) (recvIdx : List Nat) (own f : Nat) :
-    ((Tracker.mk' q recvIdx own).setFixedSize f).fixedSize = f := rfl
+/-- **size_exchange_roundtrip_fixed** (fixed-size handles).  Whatever value `own` the receiver created its receive tracker
+    with (its own handle's size, or the one carried over from the previous neighbour), once the scalar message of
+    `sendFixedSize` has been delivered and `receiveSizeAndSetupReceive` has run, the data machine of the link is in
+    exactly the state in which both sides work with the **sender's** size `f` — the state from which
+    `all_schedules_terminate` and `rank_level_fixed_size` show delivery.  (`fixInitDt`: sender started, receiver's
+    tracker still holding `own`; `seenRecv … f`: the tracker's `fixedSize` overwritten by the message, zero indices
+    skipped, data receive posted if indices are left.) -/
+theorem size_exchange_roundtrip_fixed (B : Nat) (l : FLinkSpec α) (hf : l.f ≠ 0) :
+    seenRecv (fixInitDt B l) l.f = (dataInit B l.pair).state ∧
+    (seenRecv (fixInitDt B l) l.f).rt.fixedSize = l.f :=
+  ⟨seenRecv_init B l hf, by
+    rw [seenRecv_init B l hf]
+    cases hr : l.recvIdx <;>
+      simp [dataInit, Pair.init, dataCfg, PairSpec.recvTracker, FLinkSpec.pair, hf, hr, setupRecv, Tracker.setFixedSize,
+        Tracker.skipZeroIndices, Tracker.mk']⟩
+
+/-- the receiver's own size (7) plays no role: the tracker ends with the announced 2 -/
+example : (seenRecv (fixInitDt 5 (⟨0, 1, ⟨true, fun i => [i, i]⟩, 2, 7, [3, 4], [0, 1]⟩ : FLinkSpec Nat)) 2).rt.fixedSize = 2 ∧
+    (fixInitDt 5 (⟨0, 1, ⟨true, fun i => [i, i]⟩, 2, 7, [3, 4], [0, 1]⟩ : FLinkSpec Nat)).rt.fixedSize = 7 := by decide
 
 /-! ## message matching: the no-hang obligation -/
 
@@ -395,5 +412,88 @@ example :
     (varStep 2 specs (varInit 2 2 specs) (.advance 1)).isNone = true ∧
     (varStep 2 specs (varInit 2 2 specs) (.data 0 .sendDone)).isNone = true ∧
     (varStep 2 specs (varInit 2 2 specs) (.ret 0)).isNone = true := by decide
+
+
+/-! ## the whole call on all ranks, fixed-size handles
+
+`FixSys` (Model/C06Fix) is the state of one `forward`/`backward` with a fixed-size handle on all ranks: per rank
+"in the loop" / "returned" and the three counters `no_size_to_recv`, `no_to_send`, `no_to_recv` (initialised as the
+code does: number of neighbours, of non-empty send lists, of non-empty receive lists); per link the scalar handshake
+of `sendFixedSize` (pending / matched / seen), the current `fixedSize` of the receive tracker, and the data machine
+whose receiver side starts only when the scalar has been seen.  `ret p` needs all three counters zero **and** every
+scalar send of `p` matched (the final `MPI_Waitall`). -/
+
+/-- **rank_level_fixed_size.**  For any number `n` of ranks and any links (matching list lengths, one size `1 ≤ f ≤ B`
+    per send list; the sizes of different ranks may differ, and so may the receivers' own values):
+    1. every schedule is finite (explicit bound);
+    2. in every reachable state the three counters of every rank still in its loop equal the numbers of scalars not yet
+       seen, of open send requests and of open receive lists — no counter is decremented below zero and the loop is
+       left exactly when everything is closed;
+    3. a state in which nothing is enabled is final: every rank has returned (after its `MPI_Waitall`), every scalar has
+       been received and processed, nothing is in flight, and every link has made exactly the `expectedCalls` scatter
+       calls with the sender's item count. -/
+theorem rank_level_fixed_size (B n : Nat) (specs : List (FLinkSpec α)) (hv : ValidFLinks B n specs)
+    (sched : List FAct) (g' : FixSys α) (he : fixExec B specs (fixInit B n specs) sched = some g') :
+    sched.length ≤ (specs.map fun l => 3 * (l.sendIdx.length + l.recvIdx.length) + 6).sum + 2 * n ∧
+    (∀ p, p < n → g'.phase.getD p 3 = 0 →
+      g'.noSize.getD p 0 = countSel (fNotSeen p) specs g'.links ∧
+      g'.toSend.getD p 0 = countSel (fSendOpen p) specs g'.links ∧
+      g'.toRecv.getD p 0 = countSel (fRecvOpen p) specs g'.links) ∧
+    ((∀ a, fixStep B specs g' a = none) →
+      g'.final = true ∧
+      g'.links.map (fun x => x.dt.acc) = specs.map (fun l => expectedCalls l.h l.sendIdx l.recvIdx)) := by
+  obtain ⟨hI, hm⟩ := fexec_inv sched _ g' (fixInit_inv B n specs hv) he
+  have hb := fixInit_measure B n specs
+  refine ⟨by omega, fun p hp => hI.cnt p hp, fun hstuck => ?_⟩
+  obtain ⟨hph, hlk⟩ := fstuck_final hI hstuck
+  constructor
+  · simp only [FixSys.final, Bool.and_eq_true, List.all_eq_true]
+    constructor
+    · intro k hk
+      obtain ⟨p, hp, rfl⟩ := List.mem_iff_getElem.1 hk
+      have := hph p (by rw [← hI.lenP]; exact hp)
+      simp only [List.getD_eq_getElem?_getD, List.getElem?_eq_getElem hp, Option.getD_some] at this
+      simp [this]
+    · intro x hx
+      obtain ⟨i, hi, rfl⟩ := List.mem_iff_getElem.1 hx
+      have hi' : i < specs.length := by rw [hI.links.1]; exact hi
+      obtain ⟨h1, h2, _⟩ := hlk i specs[i] g'.links[i] (List.getElem?_eq_getElem hi') (List.getElem?_eq_getElem hi)
+      simp [h1, h2]
+  · apply List.ext_getElem?
+    intro i
+    rw [List.getElem?_map, List.getElem?_map]
+    cases hl : specs[i]? with
+    | none =>
+      have : g'.links[i]? = none := by
+        rw [List.getElem?_eq_none_iff] at hl ⊢
+        rw [← hI.links.1]; exact hl
+      simp [this]
+    | some l =>
+      obtain ⟨x, hx, _⟩ := hI.links.get hl
+      obtain ⟨_, _, h3⟩ := hlk i l x hl hx
+      simp [hx, h3, callsOf_eq_expected]
+
+/-- non-vacuity: rank 0's handle has 2 items per index, rank 1's has 3 (each receive tracker is created with the
+    receiver's own size and corrected by the scalar); link 0 → 1 needs two data rounds with `B = 5`; rank 1 also has
+    an empty interface with itself.  The initial counters are (neighbours, non-empty send lists, non-empty receive
+    lists) per rank. -/
+example :
+    let specs : List (FLinkSpec Nat) :=
+      [⟨0, 1, ⟨true, fun i => [i, i + 100]⟩, 2, 3, [4, 5, 4], [0, 1, 2]⟩, ⟨1, 0, ⟨true, fun i => [i, i, i]⟩, 3, 2, [7], [9]⟩,
+       ⟨1, 1, ⟨true, fun i => [i, i, i]⟩, 3, 3, [], []⟩]
+    ((fixInit 5 2 specs).noSize, (fixInit 5 2 specs).toSend, (fixInit 5 2 specs).toRecv) = ([1, 2], [1, 1], [1, 1]) ∧
+    ((fixExec 5 specs (fixInit 5 2 specs)
+        [.scalar 1, .seen 1, .data 1 .deliver, .data 1 .sendDone, .data 1 .recvDone, .scalar 0, .scalar 2, .seen 0, .seen 2,
+         .data 0 .deliver, .data 0 .sendDone, .data 0 .recvDone, .data 0 .deliver, .data 0 .recvDone, .data 0 .sendDone,
+         .ret 0, .ret 1]).map fun g => (g.final, g.links.map fun x => x.dt.acc))
+      = some (true, [[⟨0, 2, [4, 104]⟩, ⟨1, 2, [5, 105]⟩, ⟨2, 2, [4, 104]⟩], [⟨9, 3, [7, 7, 7]⟩], []]) := by decide
+
+/-- the guards are real: before the scalar of link 0 is matched rank 0 cannot return (`MPI_Waitall`), and rank 1 cannot
+    process a scalar that has not arrived -/
+example :
+    let specs : List (FLinkSpec Nat) := [⟨0, 1, ⟨true, fun i => [i]⟩, 1, 1, [], []⟩]
+    (fixStep 5 specs (fixInit 5 2 specs) (.ret 0)).isNone = true ∧
+    (fixStep 5 specs (fixInit 5 2 specs) (.seen 0)).isNone = true ∧
+    ((fixStep 5 specs (fixInit 5 2 specs) (.scalar 0)).bind fun g => fixStep 5 specs g (.ret 0)).isSome = true := by decide
 
 end DV.C06
